@@ -18,6 +18,13 @@
 (***************************************************************************)
 EXTENDS XcpFS
 
+\* Known departures of earlier versions of the code from the intended design; the properties are checked with
+\* Deviations = {} and each deviation is shown (MC_NS_dev*.cfg) to make TLC find the corresponding violation.
+\*   "NoIdentityCheck"         files are created/truncated without the same-inode test        (repaired: fix 8a55880)
+\*   "SpecialNoIdentityCheck"  an existing node is removed without the same-inode test        (repaired: fix after 2nd review)
+\*   "ProbeFollowsLinks"       the no-clobber probe follows links (dangling link = absent)    (repaired: fix 5fd47a0)
+CONSTANT Deviations
+
 SeqToSet(s) == { s[i] : i \in 1..Len(s) }
 
 KPath(a) == a.norm \o (IF a.trail THEN <<".">> ELSE <<>>)     \* what the kernel resolves
@@ -110,15 +117,21 @@ Special(k) == k \in {"fifo", "sock", "chr"}
 ExecOp(fs, sc, v) ==
   LET to == Target(sc, v) IN
   CASE v.k = "file" ->
-         IF SameFile(fs, v.from, to) THEN Fail(fs)            \* identity check in CopyHandle::new
+         IF SameFile(fs, v.from, to) /\ "NoIdentityCheck" \notin Deviations THEN Fail(fs)   \* identity check in CopyHandle::new
          ELSE CreateFile(fs, to, v.c)
     [] v.k = "link" -> Symlink(fs, to, v.c, v.lt)
     [] Special(v.k) ->
          IF ExistsF(fs, to)
-           THEN IF sc.n THEN Fail(fs)
+           THEN IF sc.n \/ (SameFile(fs, v.from, to) /\ "SpecialNoIdentityCheck" \notin Deviations)
+                  THEN Fail(fs)                                     \* no-clobber; identity check before removal
                 ELSE LET u == Unlink(fs, to) IN IF u.ok THEN Mknod(u.fs, to, v.k, v.c) ELSE u
            ELSE Mknod(fs, to, v.k, v.c)
     [] OTHER -> Fail(fs)
+
+\* The replacement of an existing entry by a special node is two system calls; the machine takes them separately.
+NeedsUnlink(fs, sc, v) ==
+  Special(v.k) /\ ExistsF(fs, v.to) /\ ~sc.n /\ (~SameFile(fs, v.from, v.to) \/ "SpecialNoIdentityCheck" \in Deviations)
+Probe(fs, to) == IF "ProbeFollowsLinks" \in Deviations THEN ExistsF(fs, to) ELSE ExistsL(fs, to)
 
 (***************************************************************************)
 (* Layer B: the contract, as functions of the scenario and of an observed  *)
@@ -128,7 +141,7 @@ ExecOp(fs, sc, v) ==
 ApplyVisit(r, s, v) ==       \* r = [ok, fs]
   IF ~r.ok THEN r
   ELSE LET to == Target(s, v) IN
-    IF v.err \/ (s.n /\ ExistsL(r.fs, to)) THEN Fail(r.fs)
+    IF v.err \/ (s.n /\ Probe(r.fs, to)) THEN Fail(r.fs)
     ELSE IF v.k = "dir" THEN MkdirAll(r.fs, to)
     ELSE ExecOp(r.fs, s, v)
 
